@@ -29,6 +29,7 @@ type regF float64
 
 var regTypes = map[string]reflect.Type{
 	"int": reflect.TypeOf(regI(0)), "string": reflect.TypeOf(regS("")), "struct": reflect.TypeOf(regT{}), "float": reflect.TypeOf(regF(0)),
+	"ptrstruct": reflect.TypeOf(&regT{}),
 }
 
 func regValue(t string) interface{} {
@@ -39,6 +40,8 @@ func regValue(t string) interface{} {
 		return regS("txt")
 	case "struct":
 		return regT{7, "f"}
+	case "ptrstruct":
+		return &regT{7, "f"}
 	}
 	return regF(2.5)
 }
@@ -46,6 +49,10 @@ func regValue(t string) interface{} {
 // regProbes prints a value of type t at top level, in a slice, as a map value, as a reflect.Value and in struct fields
 func regProbes(t string) []string {
 	v := regValue(t)
+	if t == "ptrstruct" {
+		// below the top level a pointer prints as an address: only the positions that show the pointee
+		return []string{string(redact.Sprintf("%v", v)), string(redact.Sprint(reflect.ValueOf(v))), string(redact.Sprintf("%+v|%d", v, 3))}
+	}
 	return []string{
 		string(redact.Sprintf("%v", v)), string(redact.Sprint([]interface{}{v, "u"})), string(redact.Sprintf("%+v", map[string]interface{}{"k": v})),
 		string(redact.Sprint(reflect.ValueOf(v))), string(redact.Sprintf("%v", struct{ X, y interface{} }{v, v})),
@@ -125,6 +132,9 @@ func registryReplay(args []string) {
 			safe := map[string]bool{}
 			for _, t := range ln.Order[:i] {
 				safe[t] = true
+				if t == "struct" {
+					safe["ptrstruct"] = true // a pointer shows its pointee, whose type is registered
+				}
 			}
 			if i > 0 {
 				if m, ok := expect[key(ln.Order[:i])]; ok {
@@ -141,7 +151,7 @@ func registryReplay(args []string) {
 					// the last probe holds the value twice: exported field (registry applies) and unexported field (it applies too: by type)
 					enveloped := strings.Contains(p, "‹")
 					val := fmt.Sprint(regValue(t))
-					if t == "struct" {
+					if t == "struct" || t == "ptrstruct" {
 						val = "7"
 					}
 					inClear := strings.Contains(string(lib.DeleteEnvelopes([]byte(p))), strings.Trim(val, "{}"))
